@@ -208,6 +208,15 @@ func init() {
 								return
 							}
 							st.Write(make([]byte, n))
+						case strings.HasPrefix(op, "cap"):
+							// an administrator's partial update that leaves the user entitled: only SessionsCap is written
+							fmt.Sscanf(op, "cap%d", &u)
+							if mm != nil {
+								mgr.pt(true, "db.WriteUserInfo")
+								mm.users[arr16(uidOf(u))].cap = 7
+							} else {
+								mgr.WriteUserInfo(usermanager.UserInfo{UID: uidOf(u), SessionsCap: i32(7)})
+							}
 						case strings.HasPrefix(op, "close"):
 							fmt.Sscanf(op, "close%d.%d", &u, &s)
 							sp := fmt.Sprintf("%d.%d", u, s)
@@ -249,13 +258,20 @@ func init() {
 							deleted[u] = true
 							mgr.DeleteUser(uidOf(u))
 						case strings.HasPrefix(op, "expire"):
-							fmt.Sscanf(op, "expire%d", &u)
+							// expire<u>: the expiry date becomes 1 (one second into 1970); expirezero<u>: it becomes 0
+							at := int64(1)
+							if strings.HasPrefix(op, "expirezero") {
+								fmt.Sscanf(op, "expirezero%d", &u)
+								at = 0
+							} else {
+								fmt.Sscanf(op, "expire%d", &u)
+							}
 							expired[u] = true
 							if mm != nil {
 								mgr.pt(true, "db.WriteUserInfo")
-								mm.users[arr16(uidOf(u))].expiry = 1
+								mm.users[arr16(uidOf(u))].expiry = at
 							} else {
-								mgr.WriteUserInfo(usermanager.UserInfo{UID: uidOf(u), ExpiryTime: i64(1)})
+								mgr.WriteUserInfo(usermanager.UserInfo{UID: uidOf(u), ExpiryTime: i64(at)})
 							}
 						default:
 							panic("bad op " + op)
@@ -412,6 +428,8 @@ func init() {
 			{Scenario: "panel.usage", Params: vx.P("sessions", "0.1", "ops", "up0.1:10,down0.1:5,round", "db", "bolt"), Bound: b(1, 2), Weight: 9},
 			{Scenario: "panel.usage", Params: vx.P("sessions", "0.1", "ops", "up0.1:300,round", "upcredit", "200", "db", "bolt"), Bound: b(1, 2), Weight: 7},
 			{Scenario: "panel.usage", Params: vx.P("sessions", "0.1", "ops", "up0.1:10,round,expire0", "db", "bolt"), Bound: b(1, 2), Weight: 7},
+			{Scenario: "panel.usage", Params: vx.P("sessions", "0.1", "ops", "up0.1:10,round,expirezero0", "db", "bolt"), Bound: b(1, 2), Weight: 7},
+			{Scenario: "panel.usage", Params: vx.P("sessions", "0.1", "ops", "up0.1:10,round,cap0", "db", "bolt"), Bound: b(1, 2), Weight: 7},
 			{Scenario: "panel.usage", Params: vx.P("sessions", "0.1", "ops", "up0.1:10,round,delete0", "db", "bolt"), Bound: b(1, 2), Weight: 7},
 		}
 		for _, f := range []string{"slow", "error", "slow-error", "none"} {
